@@ -49,6 +49,9 @@ TEXT = {
  "C14": ("Exhaustive differentials over the instruction sweep (forward vs reverse order, checked vs release), over all ordered program pairs (history independence, fresh vs shared InstructionSet), CLI vs library on the corpus, and loom exploration of all interleavings of concurrent node creation through the real interpreter.",
          "Trusted: loom's exploration of the one shared atomic (inventory-checked); the corpus.",
          "loom (exhaustive interleavings of the real code) + exhaustive order/pair/profile/CLI differentials"),
+ "C15": ("Every INTEGER-operand instruction x operand position x magnitude ladder executed as one real step under an allocation budget enforced by a counting global allocator (deterministic counters decide, aborts are attributed by breadcrumb); every small structure-doubling program stepped under the default limits with per-step monitors.",
+         "Trusted: the counting allocator (harness/src/budget.rs), the thresholds.",
+         "exhaustive enumeration (instruction x operand position x magnitude ladder; all small grower programs) with a resource-invariant oracle on deterministic allocation counters"),
  "C16": ("Every reachable PushStack content up to the size bound (BFS to fixpoint) x every public operation x every position in [0,len+2] executed on the real container and compared with a plain Vec; complete for the bound.",
          "Trusted: the Vec reference (harness/src/c16.rs); PushStack has no hidden state besides its elements.",
          "explicit-state BFS to fixpoint over the real container against a reference model"),
